@@ -64,6 +64,9 @@ def classify(text, version):
     if text.rstrip().count(";") > 5:
         # more than six fields: the payload cannot contain ';' on the wire, so this is never a message
         return "A", None
+    if text.count(";") < 5:
+        # fewer than six fields (a truncated frame, also one that only lacks its - possibly empty - payload field)
+        return "A", None
     fields = tables.parse_canonical(text)
     if fields is not None:
         verdict = tables.valid_frame(version, *fields)
@@ -135,6 +138,9 @@ class NetRun:
         self.inject_at_save = None
         self.link_fault = None
         self.link_is_down = False
+        self.slow_callback = 0
+        self.stop_from_callback = False
+        self.stopped_in_callback = False
         self.fault_at_last_tick = None
         self.state_diverged = False
         self.inject_at_final_save = None
@@ -249,6 +255,20 @@ class NetRun:
         idx = self.cb_calls
         self.cb_calls += 1
         snap = W.projection(self.world.gateway.sensors)
+        if self.stop_from_callback:
+            # the application stops the gateway from inside its event callback (on the thread that handles the message)
+            self.stop_from_callback = False
+            self.faults["stop_from_event_callback"] = self.faults.get("stop_from_event_callback", 0) + 1
+            try:
+                self.world.gateway.stop()
+            except Exception as exc:  # pylint: disable=broad-except
+                self.add(vio("stop-raised", {"exc": repr(exc), "where": "inside the event callback"}, exc=type(exc).__name__))
+            self.stopped_in_callback = True
+        if self.slow_callback:
+            # the application's callback takes its time (runs in the thread that handles the message)
+            delay, self.slow_callback = self.slow_callback, 0
+            self.faults["slow_event_callback"] = self.faults.get("slow_event_callback", 0) + 1
+            self.world.sim.sleep(delay)
         if idx in self.cb_raise:
             self.faults["callback_raised"] = self.faults.get("callback_raised", 0) + 1
             self.world.callbacks.append(((msg.node_id, msg.child_id, int(msg.type), msg.ack, int(msg.sub_type), msg.payload), snap))
@@ -1132,7 +1152,8 @@ class NetRun:
         self.stopping = True
         disk_at_stop = None
         try:
-            world.stop()
+            if not (opts and opts.get("already_stopped")):
+                world.stop()
             before = W.projection(world.gateway.sensors)  # what the gateway holds at the instant stop() returns
             if self.persist:
                 disk_at_stop = self.fs.clone()  # the file as it is at that instant
@@ -1352,6 +1373,40 @@ class NetRun:
                 self.op_linkdrop()
             elif kind == "linkdown":
                 self.op_linkdown()
+            elif kind == "stop_from_callback":
+                # a state-changing line; the application calls stop() from inside the event callback it triggers
+                if self.flavour in ("serial", "tcp", "mqtt") and not self.cfg.get("no_callback"):
+                    self.stop_from_callback = True
+                    if self.broker is not None:
+                        self.op_line(op[1])
+                    else:
+                        world.device.inject(op[1].encode("utf-8", "surrogateescape") + b"\n")
+                        world.advance(0.3)
+                    if self.stopped_in_callback:
+                        self.probe("stopped_from_event_callback")
+                        self.stopped_in_callback = False
+                        self.op_restart(opts={"already_stopped": True})
+                    else:
+                        self.stop_from_callback = False
+                        self.op_restart()
+                else:
+                    self.op_line(op[1])
+                    self.op_restart()
+            elif kind == "stop_in_callback":
+                # a state-changing line whose event callback is slow; the application stops the gateway while the poll
+                # thread is still inside that callback (threaded device flavours; elsewhere: the line, then the stop)
+                if self.flavour in ("serial", "tcp") and not self.cfg.get("no_callback") and world.device.current() is not None:
+                    tier, fields = classify(op[1], self.version)
+                    self.slow_callback = 3.5
+                    world.device.inject(op[1].encode("utf-8", "surrogateescape") + b"\n")
+                    world.sim.sleep(0.1)
+                    self.probe("stop_during_slow_callback")
+                    self.op_restart()
+                    self.slow_callback = 0
+                    _ = (tier, fields)
+                else:
+                    self.op_line(op[1])
+                    self.op_restart()
             elif kind == "line_at_tick":
                 self._deliver_and_observe(op[1], "\n", at_save="tick")
             elif kind == "raw":
